@@ -927,6 +927,200 @@ def _(p, ir, st_, ex, k1, k2, k3, ctx):
     return (lambda: _std().binary_specialize(p, c, n, vals)), {"at": path_str(s.path), "expr": n, "values": vals}
 
 
+@op("lift_if", 1, group="loop")
+def _(p, ir, st_, ex, k1, k2, k3, ctx):
+    s = _pick([s for s in st_ if s.kind == "If" and s.parent_kind in ("For", "If")], k1)
+    if not s:
+        return None
+    c = cursor_at(p, s.path)
+    return (lambda: S.lift_if(p, c, n_lifts=1 + k2 % 2)), {"if": path_str(s.path), "n_lifts": 1 + k2 % 2}
+
+
+@op("insert_noop_call", 1)
+def _(p, ir, st_, ex, k1, k2, k3, ctx):
+    s = _pick(st_, k1)
+    if not s:
+        return None
+    f = ctx.noop_callee()
+    if f is None:
+        return None
+    found = _buffers_in(ir, s)
+    bufs = sorted(found)
+    dims = None
+    for b in bufs[k2 % len(bufs) :] + bufs[: k2 % len(bufs)] if bufs else []:
+        d = _decl_dims(ir, st_, found[b])
+        if d and len(d) == 1:
+            dims = (b, d)
+            break
+    if dims is None:
+        return None
+    b, d = dims
+    n, win = [("1", f"{b}[0:1]"), (d[0], f"{b}[0:{d[0]}]"), ("1", f"{b}[{d[0]} - 1:{d[0]}]")][k3 % 3]
+    c = cursor_at(p, s.path)
+    g = c.before() if k3 // 3 % 2 == 0 else c.after()
+    return (lambda: S.insert_noop_call(p, g, f, [n, win])), {"at": path_str(s.path), "side": k3 // 3 % 2, "arg": win}
+
+
+@op("std.cse", 1, group="stdlib")
+def _(p, ir, st_, ex, k1, k2, k3, ctx):
+    s = _pick([s for s in st_ if s.kind in ("For", "If", "Assign", "Reduce")], k1)
+    if not s:
+        return None
+    c = cursor_at(p, s.path)
+    prec = ["f32", "f64", "R"][k2 % 3]
+    return (lambda: _std().cse(p, c, prec)), {"at": path_str(s.path), "prec": prec}
+
+
+@op("std.jam_stmt", 1, group="stdlib")
+def _(p, ir, st_, ex, k1, k2, k3, ctx):
+    s = _pick([s for s in st_ if s.pos + 1 < s.nsib and s.kind in ("Assign", "Reduce", "Alloc", "Call")], k1)
+    if not s:
+        return None
+    c = cursor_at(p, s.path)
+    return (lambda: _std().jam_stmt(p, c)), {"at": path_str(s.path)}
+
+
+@op("std.unroll_buffers", 1, group="stdlib")
+def _(p, ir, st_, ex, k1, k2, k3, ctx):
+    return (lambda: _std().unroll_buffers(p)), {}
+
+
+@op("std.unfold_reduce", 1, group="stdlib")
+def _(p, ir, st_, ex, k1, k2, k3, ctx):
+    s = _pick([s for s in st_ if s.kind == "Reduce"], k1)
+    if not s:
+        return None
+    c = cursor_at(p, s.path)
+    return (lambda: _std().unfold_reduce(p, c)), {"at": path_str(s.path)}
+
+
+@op("std.undo_divide_and_guard_loop", 1, group="stdlib")
+def _(p, ir, st_, ex, k1, k2, k3, ctx):
+    s = _pick(_nested(st_), k1)
+    if not s:
+        return None
+    c = cursor_at(p, s.path)
+    return (lambda: _std().undo_divide_and_guard_loop(p, c)), {"loop": path_str(s.path)}
+
+
+@op("std.tile_loops_bottom_up", 1, group="stdlib")
+def _(p, ir, st_, ex, k1, k2, k3, ctx):
+    s = _pick(_nested(st_), k1)
+    if not s:
+        return None
+    c = cursor_at(p, s.path)
+    tiles = [(2, 2), (4, 2), (2, None)][k2 % 3]
+    return (lambda: _std().tile_loops_bottom_up(p, c, tiles)), {"loop": path_str(s.path), "tiles": list(tiles)}
+
+
+@op("std.unroll_and_jam_parent", 1, group="stdlib")
+def _(p, ir, st_, ex, k1, k2, k3, ctx):
+    s = _pick([s for s in _loops(st_) if s.parent_kind == "For"], k1)
+    if not s:
+        return None
+    c = cursor_at(p, s.path)
+    return (lambda: _std().unroll_and_jam_parent(p, c, 2)), {"loop": path_str(s.path)}
+
+
+@op("std.parallelize_reduction", 1, group="stdlib")
+def _(p, ir, st_, ex, k1, k2, k3, ctx):
+    from exo import DRAM
+
+    s = _pick([s for s in st_ if s.kind == "Reduce" and s.parent_kind == "For"], k1)
+    if not s:
+        return None
+    c = cursor_at(p, s.path)
+    fac = [None, 2, 4][k2 % 3]
+    return (lambda: _std().parallelize_reduction(p, c, factor=fac, memory=DRAM, nth_loop=1 + k3 % 2, unroll=bool(k3 // 2 % 2))), {"at": path_str(s.path), "factor": fac, "nth": 1 + k3 % 2, "unroll": bool(k3 // 2 % 2)}
+
+
+@op("std.parallelize_all_reductions", 1, group="stdlib")
+def _(p, ir, st_, ex, k1, k2, k3, ctx):
+    from exo import DRAM
+
+    s = _pick(_loops(st_), k1)
+    if not s:
+        return None
+    c = cursor_at(p, s.path)
+    fac = [None, 2, 4][k2 % 3]
+    return (lambda: _std().parallelize_all_reductions(p, c, factor=fac, memory=DRAM)), {"loop": path_str(s.path), "factor": fac}
+
+
+@op("std.parallelize_allocs", 1, group="stdlib")
+def _(p, ir, st_, ex, k1, k2, k3, ctx):
+    s = _pick([s for s in st_ if s.kind in ("For", "If")], k1)
+    if not s:
+        return None
+    c = cursor_at(p, s.path)
+    return (lambda: _std().parallelize_allocs(p, c)), {"at": path_str(s.path)}
+
+
+@op("std.vectorize", 1, group="stdlib")
+def _(p, ir, st_, ex, k1, k2, k3, ctx):
+    from exo.libs.memories import AVX2
+    from exo import DRAM
+
+    s = _pick(_loops(st_), k1)
+    if not s:
+        return None
+    c = cursor_at(p, s.path)
+    mem = [DRAM, AVX2][k2 % 2]
+    w = [8, 4][k3 % 2] if mem is AVX2 else [2, 4][k3 % 2]
+    tail = ["cut", "cut_and_predicate", "predicate", "perfect"][k3 // 2 % 4]
+    return (lambda: _std().vectorize(p, c, w, "f32", mem, instructions=[], rules=[_std().fma_rule] if k3 // 8 % 2 else [], tail=tail)), {"loop": path_str(s.path), "width": w, "mem": mem.name(), "tail": tail, "fma": bool(k3 // 8 % 2)}
+
+
+@op("halide.tile", 1, group="stdlib")
+def _(p, ir, st_, ex, k1, k2, k3, ctx):
+    import exo.stdlib.halide_scheduling_ops as H
+
+    s = _pick(_nested(st_), k1)
+    if not s:
+        return None
+    c = cursor_at(p, s.path)
+    c2 = cursor_at(p, s.path + [("body", 0)])
+    a, b = [(2, 2), (4, 2), (2, 4)][k2 % 3]
+    perfect = bool(k3 % 2)
+    return (lambda: H.tile(p, c, c2, ["yo", "yi"], ["xo", "xi"], a, b, perfect=perfect)), {"loop": path_str(s.path), "tiles": [a, b], "perfect": perfect}
+
+
+@op("halide.split", 1, group="stdlib")
+def _(p, ir, st_, ex, k1, k2, k3, ctx):
+    import exo.stdlib.halide_scheduling_ops as H
+
+    s = _pick(_loops(st_), k1)
+    if not s:
+        return None
+    c = cursor_at(p, s.path)
+    tail = ["perfect", "cut", "guard", "cut_and_guard"][k3 % 4]
+    return (lambda: H.split(p, c, "so", "si", [2, 4, 3][k2 % 3], tail)), {"loop": path_str(s.path), "factor": [2, 4, 3][k2 % 3], "tail": tail}
+
+
+@op("halide.compute_at", 1, group="stdlib")
+def _(p, ir, st_, ex, k1, k2, k3, ctx):
+    import exo.stdlib.halide_scheduling_ops as H
+
+    prods = [s for s in st_ if s.kind == "Assign"]
+    s = _pick(prods, k1)
+    loops = _loops(st_)
+    if not s or not loops:
+        return None
+    t = loops[k2 % len(loops)]
+    return (lambda: H.compute_at(p, cursor_at(p, s.path), cursor_at(p, t.path), with_prologue=bool(k3 % 2))), {"producer": path_str(s.path), "loop": path_str(t.path), "prologue": bool(k3 % 2)}
+
+
+@op("halide.store_at", 1, group="stdlib")
+def _(p, ir, st_, ex, k1, k2, k3, ctx):
+    import exo.stdlib.halide_scheduling_ops as H
+
+    s = _pick(_allocs(st_), k1)
+    loops = _loops(st_)
+    if not s or not loops:
+        return None
+    t = loops[k2 % len(loops)]
+    return (lambda: H.store_at(p, cursor_at(p, s.path), cursor_at(p, t.path))), {"alloc": path_str(s.path), "loop": path_str(t.path)}
+
+
 @op("halide.simplify_with_preds", 1, group="stdlib")
 def _(p, ir, st_, ex, k1, k2, k3, ctx):
     import exo.stdlib.halide_scheduling_ops as H
@@ -1005,6 +1199,17 @@ class SchedCtx:
     def fresh(self):
         self._n += 1
         return self._n
+
+    def noop_callee(self):
+        """a pass-bodied callee taking one 1-d f32 window (for insert_noop_call)"""
+        if "_noop" not in self.__dict__:
+            from .exoutil import exec_source
+
+            try:
+                self._noop = exec_source("@proc\ndef noop1(n: size, w: [f32][n]):\n    pass\n")["noop1"]
+            except Exception:
+                self._noop = None
+        return self._noop
 
     def configs(self):
         out = []
